@@ -46,7 +46,36 @@ def mapping(entries, kind='dict', label='arg'):
             return K(None)
         obj.fields[m] = AbsFunc(m, mut)
     obj.entries = entries
+
+    def eq(interp, a, kw):
+        return K(_same_mapping(obj, a[0]))
+    obj.fields['__eq__'] = AbsFunc('__eq__', eq)
+    obj.fields['__ne__'] = AbsFunc('__ne__', lambda i, a, kw: K(
+        not _same_mapping(obj, a[0])))
     return obj
+
+
+def _same_mapping(m, other):
+    """Equality of an abstract mapping with a dict built by the code."""
+    if other is m:
+        return True
+    if isinstance(other, Obj) and hasattr(other, 'entries'):
+        pairs = other.entries
+    elif isinstance(other, DictV) and not other.unknown:
+        pairs = list(zip(other.keys, other.vals))
+    else:
+        return False
+    if len(pairs) != len(m.entries):
+        return False
+    for (k1, v1), (k2, v2) in zip(m.entries, pairs):
+        if not same(k1, k2):
+            return False
+        if isinstance(v1, Obj) and hasattr(v1, 'entries'):
+            if not _same_mapping(v1, v2):
+                return False
+        elif not (v1 is v2 or same(v1, v2)):
+            return False
+    return True
 
 
 def expected(entries, keys):
@@ -230,6 +259,18 @@ def run(ctx):
                                 (K('secret'), K('x')), (K(1), K('y'))],
                                kind)
             analyse('nested %s in %s' % (inner_kind, kind), build)
+
+            def build2(kind=kind, inner_kind=inner_kind):
+                # a nested mapping in which nothing needs masking must
+                # still come back as a new dict, not as the argument's own
+                inner = mapping([(K('n'), K(1)), (K('x'), K(None)),
+                                 (K(3), ListV([K(1)]))], inner_kind,
+                                label='inner')
+                empty = mapping([], inner_kind, label='inner-empty')
+                return mapping([(K('a'), inner), (K('e'), empty),
+                                (K('b'), K(2))], kind)
+            analyse('nested %s without secrets in %s' % (inner_kind, kind),
+                    build2)
 
 
 def _all_inputs(arg):
